@@ -24,6 +24,49 @@ add("C03", "exploration", "runtime monitoring: adversarial packet injection + gr
     "Each genuine response is accompanied by duplicates, late copies and near-miss forgeries (8 classes); every packet the tracer reads is classified by the simulator, and probe statuses, completion reason, path length, send schedule and round timing are recomputed from genuine accepted responses only. 2..4 tracers with the CLI's identifiers share one host ICMP queue and must each match a solo run.",
     SIM_NOTE + " The CLI identifier assignment is executed through a hook; the launcher's spawn path is not.", "DESIGN.md 3 C03")
 
+add("C02", "exploration", "runtime monitoring: lossless simulated paths with per-hop quotation shapes + near-miss forgeries; ground-truth join of every published probe",
+    "Every probe issued over 254-hop lossless worlds must be recognised from its quotation (IPv4 header+8..full, IPv6 full, RFC 4884 shapes, TTL/checksum/TOS rewritten); near-miss forgeries arriving first must complete nothing. Thorough walks the initial sequences so that every issuable sequence value is issued per cell.",
+    SIM_NOTE, "DESIGN.md 3 C02")
+add("C04", "exploration", "runtime monitoring: hostile-input sweeps and mutation through the real receive path, running tracers and every packet view with all Rust dynamic checks on (panic = violation); supplementary Miri pass",
+    "Systematic sweeps of every attacker-controlled length/offset field against buffer lengths, random mutations and noise are fed to Network::recv_probe on a real Channel, injected into running tracers, and to every accessor / iterator / Debug impl of all 19 packet views; any panic (bounds, overflow, unwrap, assert) is a violation, Err values are allowed.",
+    "Trusted base: the harness input generators and the panic capture; strict profile (overflow checks, debug assertions) primary, shipped profile in thorough.", "DESIGN.md 3 C04")
+add("C05", "exploration", "runtime monitoring: reference-model monitor (non-incremental re-aggregation) over State getters after every update_from_round",
+    "Thousands of synthetic round histories (and, in C01, the rounds of the real strategy) go through State::update_from_round; after every round every getter of every hop is compared with a straightforward recomputation and the conservation laws are asserted separately.",
+    "Trusted base: harness/src/reagg.rs (written from the property text, RELEASES.md 0.12 and the repository's scenario files).", "DESIGN.md 3 C05")
+add("C06", "exploration", "runtime monitoring: offline checker over the simulated socket log (send order vs. accepted genuine responses)",
+    "The send schedule of every round is reconstructed from the socket log and checked against the discipline (ttl order, max-ttl, stop after the target answered, established distance, in-flight window, first-ttl always sent) with a bookkeeping model fed from ground truth only.",
+    SIM_NOTE, "DESIGN.md 3 C06")
+add("C07", "exploration", "runtime monitoring: sequence monitors over published rounds under address-in-use storms + walk of the real allocator through a hook, (round start, round size) graph coverage measured",
+    "Sequence numbers of every published round are checked (consecutive, < 65535, <= 512, forward or restart, disjoint from the previous round, capacity error on exhaustion, Dublin/IPv6 payload bound); the real TracerState is additionally walked over its (round start, round size) graph for boundary initial sequences in both regimes.",
+    SIM_NOTE + " SeqMachine hook wraps the private TracerState.", "DESIGN.md 3 C07")
+add("C08", "exploration", "runtime monitoring: virtual-time checker of publish instants against accepted-response instants",
+    "With clock_gettime interposed, every publish instant is compared with the timing policy computed from ground truth (duration, last accepted response, target answered); all five publish-time cases and the non-publishing iterations in between are observed.",
+    SIM_NOTE, "DESIGN.md 3 C08")
+add("C09", "fault_enumeration", "runtime monitoring with exhaustive fault injection at the socket boundary (every call index x errno, consecutive runs, pairs)",
+    "For small base configurations every socket call of the run is failed once with every errno it can return (plus runs of 2-3 consecutive failures and, in thorough, pairs), and the result, the published prefix, slot states and the snapshot error are judged; larger configurations get random fault sequences, silent and flooding networks.",
+    SIM_NOTE + " The transient / fatal classification of errno kinds follows the mapping documented in net/ipv4.rs.", "DESIGN.md 3 C09")
+add("C10", "exploration", "runtime monitoring: invariant checks on snapshots after every published round (real strategy) and after synthetic rounds",
+    "After every round the hop window, target hop, is_target / is_in_round flags and the absence of panics are checked against the probed ttls and published path lengths; path lengths are recomputed from genuine responses and compared with the true distance on stable paths; outages produce silent rounds.",
+    SIM_NOTE, "DESIGN.md 3 C10")
+add("C11", "exploration", "runtime monitoring: independent RFC decoder over every datagram captured at the simulated send socket",
+    "Every datagram handed to a send socket (or built by the simulated kernel from the socket options) in every cell x size x tos x pattern x ttl 1..254 is decoded by the independent decoder and compared with the probe and the configuration.",
+    SIM_NOTE, "DESIGN.md 3 C11")
+add("C12", "exploration", "runtime monitoring: table-driven bit-field oracle over setter/getter executions (exhaustive for parameters up to 16 bits)",
+    "For every field of every packet type, every value of the setter's parameter (<= 16 bits; sampled above) is written over several backgrounds and the whole buffer compared with a generic bit-field writer at the RFC position; getters and constructors likewise.",
+    "Trusted base: the field table in harness/src/props/c12.rs (transcribed from the RFC diagrams) and the generic writer.", "DESIGN.md 3 C12")
+add("C13", "exploration", "runtime monitoring: differential check against an independent RFC 1071 routine; Paris datagrams captured at the simulated socket",
+    "All six checksum functions over every length 0..1024 x five content kinds x many address pairs are compared with an independent implementation and re-verified with the checksum inserted; Paris datagrams dispatched by the real tracer are captured and verified.",
+    "Trusted base: harness/src/wire.rs (checked against the RFC 1071 worked example and known packets).", "DESIGN.md 3 C13")
+add("C14", "exploration", "runtime monitoring: encode with an independent RFC 4884/4950 encoder, decode with the real views, iterators and receive path; corruption pass",
+    "Messages in all four layouts with 0..8 objects and MPLS stacks of 0..16 entries are decoded by the four error views, iterators, Extensions::try_from and two real channels (parsing on/off); corruptions of each message must keep slices inside the message, non-overlapping, iteration bounded and panic-free.",
+    "Trusted base: the encoder in harness/src/wire.rs.", "DESIGN.md 3 C14")
+add("C15", "exploration", "runtime monitoring: online invariant monitor over State after every round (ECMP worlds and synthetic histories)",
+    "An online monitor checks after every round: dense bounded ids, flows only extended, attribution agreeing by position with every responder, matching rounds attributed at capacity, default flow counting every round, per-flow statistics equal to the re-aggregation of exactly the attributed rounds.",
+    SIM_NOTE, "DESIGN.md 3 C15")
+add("C19", "exploration", "runtime monitoring: NAT-rewriting simulated paths; ground-truth quoted checksums vs. Hop::last_nat_status",
+    "Paths with 0..3 NAT devices, silent hops and all port directions: each responding hop's status is compared with the ground truth (quoted checksum vs. previous responder / probe as sent); non Dublin/IPv4/UDP cells must stay NotApplicable.",
+    SIM_NOTE, "DESIGN.md 3 C19")
+
 NOT_APPLICABLE = []
 
 def main():
